@@ -27,7 +27,7 @@ theorem markWant_want_iff (w : List Nat) (s : Slot) :
 
 @[simp] theorem classIter_slots (env : Env) (c : Class) (sorted : List Slot) (b : BState) :
     (classIter env c sorted b).slots =
-      sorted.map (markWant (pass2 (env.desired c) sorted (pass1 (env.desired c) sorted (passInit b.utd))).wantMnt) := rfl
+      sorted.map (markWant (pass2 c (env.desired c) sorted (pass1 c (env.desired c) sorted (passInit b.utd))).wantMnt) := rfl
 
 /-- A property of single slots that survives setting `want` survives the whole class loop. -/
 theorem runClasses_forall (Q : Slot → Prop) (hQ : ∀ s, Q s → Q { s with want := true })
@@ -175,7 +175,8 @@ theorem mem_trashes {r : Result} {s : Slot} {t : Int} : (s, t) ∈ r.trashes ↔
 
 /-! ### unsafeToDelete only grows -/
 
-theorem protectStep_utd (d : Nat) (s : Slot) (st : PassSt) : ∀ t ∈ st.utd, t ∈ (protectStep d s st).utd := by
+theorem protectStep_utd (c : Class) (d : Nat) (s : Slot) (st : PassSt) :
+    ∀ t ∈ st.utd, t ∈ (protectStep c d s st).utd := by
   intro t ht
   unfold protectStep
   split
@@ -187,57 +188,62 @@ theorem protectStep_utd (d : Nat) (s : Slot) (st : PassSt) : ∀ t ∈ st.utd, t
 @[simp] theorem wantStep_utd (d : Nat) (s : Slot) (st : PassSt) : (wantStep d s st).utd = st.utd := by
   unfold wantStep; split <;> rfl
 
-theorem trySlot_utd (d : Nat) (s : Slot) (st : PassSt) : ∀ t ∈ st.utd, t ∈ (trySlot d s st).utd := by
+theorem trySlot_utd (c : Class) (d : Nat) (s : Slot) (st : PassSt) : ∀ t ∈ st.utd, t ∈ (trySlot c d s st).utd := by
   intro t ht
   unfold trySlot
   split
   · exact ht
   · simp only [wantStep_utd]
-    exact protectStep_utd d s st t ht
+    exact protectStep_utd c d s st t ht
 
-theorem pass1Step_utd (d : Nat) (st : PassSt) (s : Slot) : ∀ t ∈ st.utd, t ∈ (pass1Step d st s).utd := by
+theorem pass1Step_utd (c : Class) (d : Nat) (st : PassSt) (s : Slot) :
+    ∀ t ∈ st.utd, t ∈ (pass1Step c d st s).utd := by
   intro t ht
   unfold pass1Step
   split
   · exact ht
   · split
     · exact ht
-    · exact trySlot_utd d s st t ht
+    · exact trySlot_utd c d s st t ht
 
-theorem pass2Step_utd (d : Nat) (st : PassSt) (s : Slot) : ∀ t ∈ st.utd, t ∈ (pass2Step d st s).utd := by
+theorem pass2Step_utd (c : Class) (d : Nat) (st : PassSt) (s : Slot) :
+    ∀ t ∈ st.utd, t ∈ (pass2Step c d st s).utd := by
   intro t ht
   unfold pass2Step
   split
   · exact ht
-  · exact trySlot_utd d s st t ht
+  · exact trySlot_utd c d s st t ht
 
-theorem pass1_utd (d : Nat) (l : List Slot) : ∀ (st : PassSt), ∀ t ∈ st.utd, t ∈ (pass1 d l st).utd := by
+theorem pass1_utd (c : Class) (d : Nat) (l : List Slot) :
+    ∀ (st : PassSt), ∀ t ∈ st.utd, t ∈ (pass1 c d l st).utd := by
   induction l with
   | nil => intro st t ht; exact ht
   | cons s l ih =>
     intro st t ht
-    show t ∈ (pass1 d l (pass1Step d st s)).utd
-    exact ih _ t (pass1Step_utd d st s t ht)
+    show t ∈ (pass1 c d l (pass1Step c d st s)).utd
+    exact ih _ t (pass1Step_utd c d st s t ht)
 
-theorem pass2_utd (d : Nat) (l : List Slot) : ∀ (st : PassSt), ∀ t ∈ st.utd, t ∈ (pass2 d l st).utd := by
+theorem pass2_utd (c : Class) (d : Nat) (l : List Slot) :
+    ∀ (st : PassSt), ∀ t ∈ st.utd, t ∈ (pass2 c d l st).utd := by
   induction l with
   | nil => intro st t ht; exact ht
   | cons s l ih =>
     intro st t ht
-    show t ∈ (pass2 d l (pass2Step d st s)).utd
-    exact ih _ t (pass2Step_utd d st s t ht)
+    show t ∈ (pass2 c d l (pass2Step c d st s)).utd
+    exact ih _ t (pass2Step_utd c d st s t ht)
 
-/-- the list a class iteration leaves contains what pass 1 had protected on any prefix state -/
-theorem classIter_utd_of_pass1 (env : Env) (c : Class) (sorted : List Slot) (b : BState) (t : Int)
-    (h : t ∈ (pass1 (env.desired c) sorted (passInit b.utd)).utd) : t ∈ (classIter env c sorted b).utd := by
+/-- what the two passes have protected stays in the list the iteration leaves -/
+theorem classIter_utd_of_passes (env : Env) (c : Class) (sorted : List Slot) (b : BState) (t : Int)
+    (h : t ∈ (pass2 c (env.desired c) sorted (pass1 c (env.desired c) sorted (passInit b.utd))).utd) :
+    t ∈ (classIter env c sorted b).utd := by
   unfold classIter
   simp only [List.mem_append]
   right
-  exact pass2_utd _ _ _ t h
+  exact h
 
 theorem classIter_utd_mono (env : Env) (c : Class) (sorted : List Slot) (b : BState) (t : Int)
     (h : t ∈ b.utd) : t ∈ (classIter env c sorted b).utd :=
-  classIter_utd_of_pass1 env c sorted b t (pass1_utd _ _ _ t h)
+  classIter_utd_of_passes env c sorted b t (pass2_utd _ _ _ _ t (pass1_utd _ _ _ _ t h))
 
 theorem runClasses_utd_mono (env : Env) (sorter : Class → List Slot → List Slot) :
     ∀ (cs : List Class) (b : BState) (t : Int), t ∈ b.utd → t ∈ (runClasses env sorter cs b).utd := by
@@ -264,62 +270,44 @@ theorem runClasses_underrep_mono (env : Env) (sorter : Class → List Slot → L
     · apply ih
       simp [classIter, h]
 
-/-! ### the code's under-replication test -/
+/-! ### slot lists with the same cores -/
 
-/-- replication of class `c` as balanceBlock counts it: one term per slot that has a replica -/
-def classRepl (c : Class) (l : List Slot) : Nat :=
-  ((l.filter (fun s => s.repl.isSome && inClass c s.mnt)).map (·.mnt.repl)).sum
+@[simp] theorem core_markWant (w : List Nat) (s : Slot) : core (markWant w s) = core s := by
+  unfold core; simp
 
-theorem classRepl_cons (c : Class) (s : Slot) (l : List Slot) :
-    classRepl c (s :: l) = (if s.repl.isSome && inClass c s.mnt then s.mnt.repl else 0) + classRepl c l := by
-  unfold classRepl
-  by_cases h : (s.repl.isSome && inClass c s.mnt) = true
-  · simp [h]
-  · simp [h]
+@[simp] theorem core_finalSlot (b : BState) (s : Slot) : core (finalSlot b s) = core s := by
+  unfold core; simp
 
-/-- the `safe` loop with its `break` decides `Σ < desired` -/
-theorem safeCount_lt (c : Class) (d : Nat) : ∀ (l : List Slot) (acc : Nat),
-    safeCount c d l acc < d ↔ acc + classRepl c l < d := by
-  intro l
-  induction l with
-  | nil => intro acc; simp [safeCount, classRepl]
-  | cons s l ih =>
-    intro acc
-    rw [classRepl_cons]
-    unfold safeCount
-    by_cases h : (s.repl.isSome && inClass c s.mnt) = true
-    · have h' : (s.repl.isNone || !inClass c s.mnt) = false := by
-        simp only [Bool.and_eq_true] at h
-        cases hr : s.repl <;> simp_all
-      simp only [h', h, if_true, Bool.false_eq_true, if_false]
-      split
-      · omega
-      · rw [ih]; omega
-    · have h' : (s.repl.isNone || !inClass c s.mnt) = true := by
-        cases hr : s.repl <;> cases hc : inClass c s.mnt <;> simp_all
-      simp only [h', h, if_true, Bool.false_eq_true, if_false]
-      rw [ih]; omega
+def CoreRel (l₁ l₂ : List Slot) : Prop := (l₁.map core).Perm (l₂.map core)
 
-theorem classRepl_perm (c : Class) {l₁ l₂ : List Slot} (h : l₁.Perm l₂) : classRepl c l₁ = classRepl c l₂ := by
-  unfold classRepl
-  exact ((h.filter _).map _).sum_nat
+theorem CoreRel.refl (l : List Slot) : CoreRel l l := List.Perm.refl _
+theorem CoreRel.trans {a b c : List Slot} (h₁ : CoreRel a b) (h₂ : CoreRel b c) : CoreRel a c := List.Perm.trans h₁ h₂
+theorem CoreRel.symm {a b : List Slot} (h : CoreRel a b) : CoreRel b a := List.Perm.symm h
 
-theorem classRepl_markWant (c : Class) (w : List Nat) (l : List Slot) :
-    classRepl c (l.map (markWant w)) = classRepl c l := by
-  induction l with
-  | nil => rfl
-  | cons s l ih => simp only [List.map_cons, classRepl_cons, markWant_mnt, markWant_repl, ih]
+theorem coreRel_of_perm {l₁ l₂ : List Slot} (h : l₁.Perm l₂) : CoreRel l₁ l₂ := h.map core
 
-theorem classIter_classRepl (env : Env) (c c' : Class) {sorted : List Slot} {b : BState}
-    (h : sorted.Perm b.slots) : classRepl c' (classIter env c sorted b).slots = classRepl c' b.slots := by
-  rw [classIter_slots, classRepl_markWant, classRepl_perm c' h]
+theorem coreRel_map_markWant (w : List Nat) (l : List Slot) : CoreRel (l.map (markWant w)) l := by
+  unfold CoreRel
+  rw [List.map_map]
+  have : (core ∘ markWant w) = core := by funext s; simp
+  rw [this]
 
-theorem runClasses_classRepl (env : Env) (sorter : Class → List Slot → List Slot) (c' : Class) :
-    ∀ (cs : List Class) (b : BState), RunOK env sorter cs b →
-      classRepl c' (runClasses env sorter cs b).slots = classRepl c' b.slots := by
+theorem coreRel_finalWant (b : BState) : CoreRel (finalWant b) b.slots := by
+  unfold CoreRel finalWant
+  rw [List.map_map]
+  have : (core ∘ finalSlot b) = core := by funext s; simp
+  rw [this]
+
+theorem classIter_coreRel (env : Env) (c : Class) {sorted : List Slot} {b : BState}
+    (h : sorted.Perm b.slots) : CoreRel (classIter env c sorted b).slots b.slots := by
+  rw [classIter_slots]
+  exact (coreRel_map_markWant _ _).trans (coreRel_of_perm h)
+
+theorem runClasses_coreRel (env : Env) (sorter : Class → List Slot → List Slot) :
+    ∀ (cs : List Class) (b : BState), RunOK env sorter cs b → CoreRel (runClasses env sorter cs b).slots b.slots := by
   intro cs
   induction cs with
-  | nil => intro b _; rfl
+  | nil => intro b _; exact CoreRel.refl _
   | cons c cs ih =>
     intro b hok
     unfold runClasses
@@ -327,12 +315,59 @@ theorem runClasses_classRepl (env : Env) (sorter : Class → List Slot → List 
     by_cases hd : env.desired c = 0
     · simp only [hd, if_true] at hok ⊢; exact ih b hok
     · simp only [hd, if_false] at hok ⊢
-      rw [ih _ hok.2, classIter_classRepl env c c' hok.1.1]
+      exact (ih _ hok.2).trans (classIter_coreRel env c hok.1.1)
 
-/-- if the code's test fires for some class of the loop, the flag is set at the end -/
+theorem coreRel_mnt_perm {l₁ l₂ : List Slot} (h : CoreRel l₁ l₂) : (l₁.map (·.mnt)).Perm (l₂.map (·.mnt)) := by
+  have := h.map Prod.fst
+  simpa [List.map_map, Function.comp_def, core] using this
+
+theorem mem_of_coreRel {l l' : List Slot} (h : CoreRel l l') {s : Slot} (hs : s ∈ l) :
+    ∃ s' ∈ l', s'.mnt = s.mnt ∧ s'.repl = s.repl := by
+  have : core s ∈ l'.map core := h.mem_iff.1 (List.mem_map.2 ⟨s, hs, rfl⟩)
+  obtain ⟨s', hs', e⟩ := List.mem_map.1 this
+  exact ⟨s', hs', congrArg Prod.fst e, congrArg Prod.snd e⟩
+
+theorem initSlots_mnt (mounts : List Mount) (reps : List Replica) :
+    (initSlots mounts reps).map (·.mnt) = mounts := by
+  induction mounts with
+  | nil => rfl
+  | cons m l ih =>
+    unfold initSlots at ih ⊢
+    simp only [List.map_cons, List.map_map] at ih ⊢
+    rw [ih]
+
+/-! ### the code's under-replication test -/
+
+/-- the mounts the `safe` loop would count if it did not `break` -/
+def countedSafe (c : Class) : List Slot → List Dev → List Mount
+  | [], _ => []
+  | s :: rest, seen =>
+    if s.repl.isNone || !inClass c s.mnt || seen.contains s.mnt.dev then countedSafe c rest seen
+    else s.mnt :: countedSafe c rest (if s.mnt.dev != 0 then s.mnt.dev :: seen else seen)
+
+/-- the `safe` loop with its `break` decides `Σ < desired` -/
+theorem safeCount_lt (c : Class) (d : Nat) : ∀ (l : List Slot) (seen : List Dev) (acc : Nat),
+    safeCount c d l seen acc < d ↔ acc + ((countedSafe c l seen).map (·.repl)).sum < d := by
+  intro l
+  induction l with
+  | nil => intro seen acc; simp [safeCount, countedSafe]
+  | cons s l ih =>
+    intro seen acc
+    unfold safeCount countedSafe
+    by_cases h : (s.repl.isNone || !inClass c s.mnt || seen.contains s.mnt.dev) = true
+    · rw [if_pos h, if_pos h]; exact ih seen acc
+    · rw [if_neg h, if_neg h]
+      simp only [List.map_cons, List.sum_cons]
+      split
+      · omega
+      · rw [ih]; omega
+
+/-- if the code's test fires for some class of the loop — on whatever reordering of the slots it
+is evaluated — the flag is set at the end -/
 theorem runClasses_underrep (env : Env) (sorter : Class → List Slot → List Slot) (c' : Class) :
     ∀ (cs : List Class) (b : BState), RunOK env sorter cs b → c' ∈ cs → env.desired c' ≠ 0 →
-      classRepl c' b.slots < env.desired c' → (runClasses env sorter cs b).underrep = true := by
+      (∀ l, CoreRel l b.slots → safeCount c' (env.desired c') l [] 0 < env.desired c') →
+      (runClasses env sorter cs b).underrep = true := by
   intro cs
   induction cs with
   | nil => intro b _ hm; cases hm
@@ -352,10 +387,10 @@ theorem runClasses_underrep (env : Env) (sorter : Class → List Slot → List S
         simp only
         split
         · rfl
-        · have : safeCount c' (env.desired c') (sorter c' b.slots) 0 < env.desired c' := by
-            rw [safeCount_lt, Nat.zero_add, classRepl_perm c' hok.1.1]; exact hlt
+        · have := hlt (sorter c' b.slots) (coreRel_of_perm hok.1.1)
           simpa using this
       · apply ih _ hok.2 hm' hd'
-        rw [classIter_classRepl env c c' hok.1.1]; exact hlt
+        intro l hl
+        exact hlt l (hl.trans (classIter_coreRel env c hok.1.1))
 
 end ArvVerif.C05
